@@ -1004,7 +1004,20 @@ impl<'t, 'd> Gen<'t, 'd> {
                 }
             }
         };
-        let a = self.address();
+        let mut a = self.address();
+        // the accessor dereferences a typed pointer: the address must be aligned for the type
+        // (over-aligned user types exist: the generator doubles alignments through nesting)
+        let need = match &ty {
+            Ty::Named(n) => self.known.iter().find(|k| k.name == *n).map(|k| k.align).unwrap_or(16),
+            _ => 16,
+        };
+        if need > 1 && a % need != 0 {
+            self.used_addrs.remove(&a);
+            a = (a / need + 1) * need;
+            self.used_addrs.insert(a);
+            // the rounded address may reach into the following pages: keep them free
+            self.page_counter += 1 + need / 0x1000;
+        }
         let addr = Some(self.num(a));
         let vis = self.vis();
         let doc = if self.t.chance(1, 4) { self.doc(2) } else { vec![] };
